@@ -21,7 +21,13 @@ MANIFEST_TEXT = ("Lean 4 theorems in three layers. (1) Over an arbitrary linearl
                  "bit for bit on arbitrary finite float/double/long double values incl. omitted (default) epsilons and every overload / FloatCmpOps member, with the integer targets "
                  "signed/unsigned char, short, int, long; over two 8-bit formats (4+3 and 5+2 exponent+mantissa bits) against the templates instantiated with a minifloat class "
                  "(exhaustively in the thorough tier, round/trunc also with unsigned char / signed char / unsigned targets), integer helpers over every representable "
-                 "argument pair above small cut-offs.")
+                 "argument pair above small cut-offs. Round four: the rounding-style dispatch of round_t / trunc_t (towardZero / towardInf: test of val against T(0), the two specialisations forwarded to) "
+                 "and the component loops of the vector overloads of round / trunc (std::vector, FieldVector: loop bounds, specialisation called, styles and epsilon passed on, the helper each vector "
+                 "specialisation derives from) are regenerated from float_cmp.cc as well; theorems: the model's round/trunc/roundM/truncM are Dispatch.run of the regenerated tables "
+                 "(round_dispatch_tied ...), the regenerated vector overloads are the component-wise maps of the scalar functions for every length and scalar type (vec_round_trunc_eq_map), hence every "
+                 "component of a vector result obeys the distance/direction laws (vec_round_within, vec_trunc_within) and the machine-integer versions agree with the mathematical ones when no component "
+                 "wraps (vec_roundM_truncM_eq). The vector overloads are instantiated by the harness (float/double/long double x int, unsigned char, short, unsigned long; std::vector sizes 0..7, "
+                 "FieldVector sizes 1,2,3,5; every overload and FloatCmpOps<vector type>) and compared bit for bit with the regenerated loops around roundM / truncM.")
 MANIFEST_NOTE = ("Trusted: Lean kernel (+propext/Classical.choice/Quot.sound), tr_c17.py, the hand-written round/trunc/integer models and the IEEE rounding model FP "
                  "(fidelity by differential execution against the hardware types and the harness minifloat), GMP as oracle, g++/ASan/UBSan, IEEE-754 conformance of "
                  "float/double/long double arithmetic of the test machine. The documented definitions and the round/trunc distance/direction laws are theorems of exact "
@@ -31,26 +37,53 @@ MANIFEST_NOTE = ("Trusted: Lean kernel (+propext/Classical.choice/Quot.sound), t
                  "is not a value of the type (round: the wrapped value is compared with the model and flagged trivial; trunc: printed `unrep` by harness and driver, not compared), "
                  "NaN/infinite arguments, long double classifiers, long long. The wrap-around law trunc_unsigned_neg_up is proved in exact arithmetic; in rounded arithmetic it is "
                  "pinned by the bit-exact model and judged by the three-valued oracle. Integer-valued arguments of every magnitude are inside "
-                 "(round/trunc must return them unchanged, also where val+1 is not representable in T). The vector overloads of round/trunc in float_cmp.cc cannot "
-                 "be instantiated (ambiguous partial specialisation, re-checked) and are not covered.")
-TECHNIQUE = ("Lean 4 proof over a generic ordered-field model and over an executable IEEE rounding model + translator for the comparison formulas and default epsilons + "
+                 "(round/trunc must return them unchanged, also where val+1 is not representable in T). The vector overloads of round/trunc in float_cmp.cc could not "
+                 "be instantiated before fixes/C17_vector_round_trunc.patch (ambiguous partial specialisations, argument declared with the component type); the check treats that as a violation of the "
+                 "property (configuration dimension of the quantifier): a compile probe runs first and, when it fails, every fvround / fvtrunc case answers FAIL with the op line as replay. "
+                 "A dispatch test rewritten as val >= T(0) (same behaviour, because round/trunc fix the integer 0) would be reported as a broken obligation: the tie is syntactic there.")
+TECHNIQUE = ("Lean 4 proof over a generic ordered-field model and over an executable IEEE rounding model + translator for the comparison formulas, default epsilons, rounding-style dispatch and vector loops of round/trunc + "
              "differential correspondence (exact rationals, bit-exact float/double/long double, exhaustive minifloat, GMP oracle)")
-TRANSLATORS = [tr_c17.translate]
 HARNESS = dict(
     sources=["cxx_c17.cc"],
     repo_sources=[],
     libs=["-lgmpxx", "-lgmp"],
     flags=["-O0"],   # three floating types (+ two minifloats) x eight integer types x 12 style pairs of templates: -O1 triples the compile time
 )
+
+
+def probe_vector_round_trunc(repo):
+    """runs with the translators (before the harness is compiled): can FloatCmp::round / trunc be instantiated for std::vector and
+    FieldVector in the tree under test?  (They cannot before fixes/C17_vector_round_trunc.patch, and a change can break that again.)
+    If not, the harness is compiled with -DDV_C17_VECRT=0: every fvround / fvtrunc op then answers FAIL (a VIOLATION with the op line
+    as replay) instead of the harness failing to compile."""
+    import os
+    import subprocess
+    verif = os.path.dirname(os.path.dirname(os.path.dirname(os.path.abspath(__file__))))
+    cmd = ["g++", "-std=c++20", "-fsyntax-only", "-DDV_C17_PROBE_ONLY", "-DHAVE_CONFIG_H", "-I" + repo,
+           "-I" + os.path.join(verif, "harness", "include"), os.path.join(verif, "harness", "cxx_c17.cc")]
+    HARNESS["flags"] = [f for f in HARNESS["flags"] if not f.startswith("-DDV_C17_VECRT")]
+    try:
+        ok = subprocess.run(cmd, stdout=subprocess.DEVNULL, stderr=subprocess.DEVNULL, timeout=600).returncode == 0
+    except Exception:
+        ok = True   # e.g. a timeout under load: let the harness compile decide
+    if not ok:
+        HARNESS["flags"].append("-DDV_C17_VECRT=0")
+    return []
+
+
+TRANSLATORS = [tr_c17.translate, tr_c17.translate_rt, tr_c17.translate_vec, probe_vector_round_trunc]
 RULE = ("cases: cmp/cmpv (float,double x 3 styles; operand pairs placed on/next to the tolerance threshold, equal, opposite, zero; epsilons 0, <1, 1, >1), "
         "round/trunc (4 rounding styles x signed/unsigned char/short/int/long targets; arguments at integers, halves, tie boundaries, distance epsilon from an integer, (-1,0] for unsigned targets, around the largest / smallest value of the unsigned and narrow types), "
+        "fvround/fvtrunc (round / trunc of std::vector (0..7 components) and FieldVector (1,2,3,5) to vectors of int / unsigned char / short / unsigned long: components drawn from the scalar "
+        "fround/ftrunc generator of the same types and styles, the first-generated one moved to a random position), "
         "fcmp/fcmpv/fround/ftrunc (the same on arbitrary finite float/double/long double values: random bit patterns, subnormals, extremes, partners nudged a few ulps around the "
         "threshold the code computes, epsilon omitted / default / 0 / tiny / >= 1/2; std::vector sizes 0..9 incl. unequal, FieldVector sizes 1..6,8), minifloat mf/mfr/mfrow/mfri "
         "(exhaustive tables; mfri = round/trunc of both 8-bit formats to unsigned char / signed char / unsigned for every value in range and every epsilon), pow/fact/binom at the representability boundary and exhaustive enumerations, sign, classifiers with one non-finite component, compile-time overloads "
         "and documented defaults (static, defeps); distinct = distinct op lines; non-trivial = the oracle decided a law/definition on a call of the real code (skip/unrep lines, "
         "documented-unsupported negative integer exponents and unsigned targets whose documented result is -1 are trivial)")
 ASSUMPTIONS = [
-    "the formulas of eq/ne/lt/gt/le/ge and the default epsilons (float, double, long double, minifloat) are regenerated from float_cmp.cc by tools/translators/tr_c17.py; the style dispatch, vector loops, round/trunc and the integer helpers in lean/DuneVerif/Model/C17.lean are hand-written and tied by this differential run",
+    "the formulas of eq/ne/lt/gt/le/ge, the default epsilons (float, double, long double, minifloat), the towardZero/towardInf dispatch of round_t/trunc_t and the component loops + derived specialisations of the vector overloads of round/trunc are regenerated from float_cmp.cc by tools/translators/tr_c17.py (Gen/C17.lean, Gen/C17RT.lean, Gen/C17Vec.lean); the compare-style dispatch, the vector loops of eq, the bodies of round/trunc downward/upward and the integer helpers in lean/DuneVerif/Model/C17.lean are hand-written and tied by this differential run",
+    "ops fvround/fvtrunc: every component is in the domain of the scalar op (otherwise the case is skipped); the oracle is the scalar oracle per component plus equality of every component of the vector result (all overloads, FloatCmpOps<vector type>) with the scalar call; components whose documented result is not a value of the target type print `unrep` on both sides as for ftrunc",
     "ops cmp/cmpv/round/trunc: operands are dyadic with few significant bits (f32: 12 bits in a 2^+-11 window, f64: 26 bits in a 2^+-26 window) so that every C++ intermediate is exact; the harness re-checks that with GMP; the model side is evaluated over the rationals",
     "ops fcmp/fcmpv/fround/ftrunc: arbitrary finite values; float/double/long double arithmetic of the machine is IEEE 754 round-to-nearest-even (binary32, binary64, x87 extended), which the Lean type FP f models; int<->float conversions round to nearest / truncate",
     "the minifloat class template is part of the harness (one rounding per operation, ties to even); its two instances are modelled by the same FP f with f = (4 bits, emin -6, emax 7) and f = (3 bits, emin -14, emax 15); the default epsilon is used with the first only",
@@ -59,7 +92,7 @@ ASSUMPTIONS = [
     "ops round/trunc (exact rationals): where something wraps around, trunc converts the wrapped value back to T (T(2^bits - 1) - val, ...), which is exact in T only for bits + exponent window <= precision (unsigned/signed char with float; char and short with double): only those combinations are run beyond the no-wrap domain; the others are exercised by ftrunc (bit-exact model) and mfri. round never converts a wrapped value",
     "a non-integer value of T is below 2^(digits-1), so its neighbouring integers convert exactly; integer-valued arguments (all values from 2^(digits-1) on) must be returned unchanged by round and trunc",
     "power is run with |p| <= 4096",
-    "the model describes the code after fixes/C17_binomial_overflow.patch, fixes/C17_round_unsigned.patch, fixes/C17_trunc_large.patch, fixes/C17_round_range_end.patch and fixes/C17_trunc_range_end.patch",
+    "the model describes the code after fixes/C17_binomial_overflow.patch, fixes/C17_round_unsigned.patch, fixes/C17_trunc_large.patch, fixes/C17_round_range_end.patch, fixes/C17_trunc_range_end.patch and fixes/C17_vector_round_trunc.patch",
 ]
 TRUSTED = ["g++/libstdc++, ASan/UBSan, GMP as oracle", "translator tr_c17.py", "harness/cxx_c17.cc + Driver/C17.lean parsing/printing",
            "IEEE-754 conformance of the machine's float/double/long double operations"]
